@@ -138,7 +138,6 @@ def run(ctx):
             if u(b) == target or (isinstance(b, ast.Name) and is_alias(n, b.id)):
               nested.add(fld)
   ctx.note('nested SelectorMap fields (dict values are inserted into them): %s' % sorted(nested))
-  ctx.expect_at_least('nested fields of SelectorMap (the suffix tree)', len(nested), 1)
 
   # ---- C08.copy
   cp = sm.methods.get('copy')
@@ -232,6 +231,8 @@ def run(ctx):
               '%s writes %s but not %s: the tree and the map go out of step, so suffix matching and exact lookup disagree'
               % (name, sorted(got), sorted(set(fields) - got)), m.loc(), sites=sum(len(v) for v in wr.get(name, {}).values()) or 1, instance=name)
   ctx.expect_at_least('SelectorMap methods that mutate the map', len([n for n in wr if n != '__init__']), 3)
+  if not any(not o.ok and o.rule == 'C08.sync' for o in ctx.obs):
+    ctx.expect_at_least('nested fields of SelectorMap (the suffix tree)', len(nested), 1)
 
   # ---- C08.exact-first
   mt = sm.methods.get('matching_selectors')
